@@ -197,11 +197,14 @@ pub fn run(ctx: &Ctx, rec: &mut Rec) {
                     let mut ks: Vec<B> = Vec::new();
                     for i in 0..size {
                         pts.push(zoo[rand_range(&mut rng, zoo.len())].clone());
-                        let k = match (i + rep) % 6 {
+                        let k = match (i + rep) % 8 {
                             0 => b(0),
                             1 => &c.r - b(1),
                             2 => b(1),
                             3 => (b(1) << (3 * (i % 80))) % &c.r,
+                            // all-ones runs (carry chains of the signed-digit recoding) and values next to r
+                            4 => ((b(1) << (1 + (7 * i + rep) % 250)) - b(1)) % &c.r,
+                            5 => &c.r - b(2 + (i % 5) as u64),
                             _ => rand_below(&mut rng, &c.r),
                         };
                         ks.push(k);
